@@ -105,6 +105,20 @@ CHECKS['C17'] = dict(
     technique="Coq-checked static exception-flow analysis over a skeleton regenerated from the source + fault-injection oracle",
     design="6.C17")
 
+CHECKS['C12'] = dict(
+    text="Gen/Effects.v (regenerated from /repo on every run): the process-wide variables that are written anywhere and, per function, "
+         "direct reads / writes / calls (name-based call graph incl. Lark's reflective callback calls and implicit __str__/__eq__). Coq: "
+         "a generic frame theorem for operations respecting a read/write/reset footprint (history independence and idempotence, proved "
+         "once for all state and result types), the footprints of compile / get_symbols / check_syntax / cnl_to_json computed from the "
+         "summary, and C12_footprints_pure: every variable an API method reads before resetting it is an option no API method writes "
+         "(so C12_history_independent applies to every history). Dynamic part: random histories of 0-6 API calls on accepted and "
+         "rejected inputs in one process vs the same call in a fresh process, under several PYTHONHASHSEEDs (the hash-seed clause is "
+         "decided by these runs only: partial).",
+    note="Trusted: Coq kernel; the effect translator (variables reached by class/module name only; instance state is per call); Lark's own error text is "
+         "canonicalised to class+position (its expected-token list is in set order); uuid4 normalised.",
+    technique="Coq frame theorem over effect footprints regenerated from the source + history-vs-fresh-process differential runs",
+    design="6.C12")
+
 NOT_YET = {}
 
 
